@@ -80,7 +80,8 @@ Proof. intros H. unfold to_bytes_be. destruct ((0 <=? z) && (z <? P w)) eqn:E; [
 
 Lemma py_int_nonneg p z : py_int p = Ok z -> 0 <= z.
 Proof.
-  unfold py_int. destruct (digit_str p) eqn:E; [|discriminate]. intros H. apply Ok_inj in H. subst z.
+  unfold py_int. destruct (digit_str p) eqn:E; [|discriminate]. destruct (short_str p); [|discriminate].
+  intros H. apply Ok_inj in H. subst z.
   now apply dec_val_digit_str_nonneg.
 Qed.
 
@@ -145,8 +146,9 @@ Proof.
   assert (Hr1 : digit_str [r] = true) by (cbn [digit_str forallb]; now rewrite Hr).
   assert (Hrv : 0 <= dec_val 0 [r] < 256) by (cbn [dec_val]; unfold is_digit in Hr; lia).
   pose proof (dec_val_digit_str_nonneg a Ha) as Ha0.
-  cbn [map]. rewrite !index_1, !index_2. ev. rewrite !(py_int_digits [r] Hr1), !(py_int_digits a Ha). ev.
-  rewrite index_2. ev. rewrite (py_int_digits a Ha). ev.
+  cbn [map]. rewrite !index_1, !index_2. ev. rewrite !(py_int_short [r] Hr1 (short_1 r)), !(py_int_digits a Ha). ev.
+  rewrite index_2. ev. rewrite ?(py_int_digits a Ha).
+  destruct (short_str a); ev; [|reflexivity].
   unfold k_sid_auth_bad. rewrite Z.geb_leb.
   destruct (2 ^ 48 <=? dec_val 0 a) eqn:Eauth; ev; [reflexivity|].
   change (Z.to_nat 8) with 8%nat. rewrite be_ok by (rewrite P_8; change (2 ^ 48) with 281474976710656 in Eauth; lia). ev.
